@@ -551,6 +551,11 @@ func (s *Server) handlePostTx(w http.ResponseWriter, r *http.Request) {
 	} else if hdr.IsSnapshot() && !db.Pos().IsZero() {
 		Error(w, r, fmt.Errorf("snapshot cannot be forwarded"), http.StatusBadRequest)
 		return
+	} else if hdr.MinTXID != hdr.MaxTXID {
+		// The local log is looked up by transaction ID (replication, backup
+		// upload): it holds one file per transaction.
+		Error(w, r, fmt.Errorf("forwarded file must hold a single transaction: %s-%s", hdr.MinTXID.String(), hdr.MaxTXID.String()), http.StatusBadRequest)
+		return
 	}
 
 	// Wrap request body in a chunked reader.
